@@ -432,6 +432,21 @@ def o_halo_padding(case):
     return None
 
 
+def tall_column_case(rng):
+    """thousands of thin layers, a background concentration that is large against the drop across one layer (420 ppm, 1900 ppb), both
+    storage precisions: the mean mode is accumulated over every layer, whatever is rounded per layer instead of once shows here"""
+    nz = int(rng.choice([1500, 4000]))
+    z = np.geomspace(0.1, 20.0, nz)
+    Kz = 0.16 * z
+    sp = 1.0 + np.log(z / 0.05)
+    ny, nx = int(rng.choice([4, 6])), int(rng.choice([4, 6]))
+    c = dict(q=rng.uniform(0.5, 1.5, (ny, nx)), z=z, profiles=(0.9 * sp, 0.3 * sp, Kz.copy(), 1.3 * Kz, Kz), domain=(400.0, 300.0),
+             levels=[int(nz // 8), int(nz // 2), int(nz - 1), 0], modes=(4, 4), meas_pt=(0.0, 0.0), bg=float(rng.choice([420.0, 1900.0])),
+             footprint=False, analytic=False, halo=0.0, precision=str(rng.choice(["single", "single", "double"])))
+    c["_kinds"] = dict(halo="zero", levels="tall", meas="origin", prof="varying")
+    return c
+
+
 def run_C03(rng, tier, deep):
     st = new_stats()
     correspond([random_case(rng, halo=0.0 if i % 3 == 0 else random_case(rng)["halo"]) for i in range(budget(tier, deep, 24, 200))], st)
@@ -444,7 +459,9 @@ def run_C03(rng, tier, deep):
         if c2["halo"] is None and max(c2["q"].shape) > 6:
             continue
         run_oracle(st, o_halo_padding, c2)
-    return finish(st, "random requests; conservation oracle with halo=0 (periodic domain observed through the API), "
+    for _ in range(budget(tier, deep, 2, 6)):
+        run_oracle(st, o_conservation, tall_column_case(rng))
+    return finish(st, "random requests and tall columns (1500-4000 geometric layers, background 420 / 1900, single and double); conservation oracle with halo=0 (periodic domain observed through the API), "
                   "halo-equivalence oracle with explicit np.pad, enlarged domain, halo=0 and crop", deep, TOL)
 
 
@@ -956,11 +973,14 @@ def run_C07(rng, tier, deep):
             c["halo"] = 0.93 * max(c["domain"])
         if c["_kinds"]["meas"] == "grid":
             pass
-        c["par"] = dict(kind=str(rng.choice(["length", "velocity"])), s=float(10 ** rng.uniform(-3, 3)))
+        # a similarity law has no preferred scale: most factors within 1e-3..1e3, some as far as 1e-7 / 1e7 (millimetre flumes, molecular
+        # diffusivities: any absolute threshold in metres, m/s or m2/s hidden in the code is crossed by one of them)
+        ex = float(rng.uniform(-3, 3)) if rng.random() < 0.65 else float(rng.uniform(-7, 7))
+        c["par"] = dict(kind=str(rng.choice(["length", "velocity"])), s=float(10 ** ex))
         run_oracle(st, o_similarity, c)
     return finish(st, "random requests with Kx != Ky != Kz, oblique sheared winds, nx != ny; oracles: x/y mirror (halo=0, components at or beyond "
                   "the cut-off removed by FFT), transpose with swapped winds/diffusivities/domain/modes, length and velocity similarity with "
-                  "scale factors 1e-3..1e3", deep, TOL)
+                  "scale factors 1e-3..1e3 (a third of them out to 1e-7..1e7)", deep, TOL)
 
 
 # ------------------------------------------------------------ C10 levels
